@@ -234,6 +234,18 @@ class H2Protocol:
                 self.connection.send_headers(event.stream_id, event.headers, end_stream=True)
                 await self._flush()
             elif isinstance(event, StreamClosed):
+                buffer = self.stream_buffers.get(event.stream_id)
+                if (
+                    isinstance(self.streams.get(event.stream_id), HTTPStream)
+                    and buffer is not None
+                    and not buffer._complete
+                ):
+                    # The app has finished without completing its response,
+                    # the client must not mistake what it has for the whole.
+                    self.connection.reset_stream(
+                        event.stream_id, h2.errors.ErrorCodes.INTERNAL_ERROR
+                    )
+                    await self._flush()
                 await self._close_stream(event.stream_id)
                 idle = len(self.streams) == 0 or all(
                     stream.idle for stream in self.streams.values()
